@@ -290,6 +290,8 @@ class Info:
     def req(self, r):
         if r[0] in RW:
             return [r[0], rw_spec(r), r[2]]
+        if r[0] == 'bad':
+            return ['bad', r[1], r[2] or '']
         return [r[0], self.scope(r[1])] if r[0] in ('activate', 'deactivate') else [r[0]]
 
     def cache(self, node):
@@ -542,6 +544,8 @@ def run_case(case, policy):
                         reply = node.request(conn, r[0], r[1], float(e[1]) if r[0] == 'change' else None)
                     finally:
                         script_value[name], clock.override[name], stat['rw_thread'][name] = None, None, False
+                elif r[0] == 'bad':      # refused on the first lines of the handler: ['bad', action, specifier, data]
+                    reply = node.request(conn, r[1], r[2], r[3])
                 else:
                     reply = node.request(conn, r[0], r[1], None)
                 conn.send_reply(reply)
@@ -760,6 +764,13 @@ class Stamps:
         return self.t
 
 
+def gen_bad(rng, specs):
+    """a request the handler refuses as malformed before it looks at anything"""
+    spec = rng.choice([s for s in specs if s] or ['T'])
+    return rng.choice([['bad', 'activate', rng.choice([spec, None]), 1], ['bad', 'deactivate', rng.choice([spec, None]), 1],
+                       ['bad', 'read', spec, 1], ['bad', 'read', None, None], ['bad', 'change', None, 5]])
+
+
 def gen_rw(rng, mods, stamps, hot=None, hidden=()):
     """a read / change request: mostly a parameter with a driver function, a value or an error from the driver; sometimes
     something refused (unknown module / parameter, a read-only parameter) or answered without the driver (no read_ function)"""
@@ -871,6 +882,10 @@ CATALOGUE = [
     scn('read-unchanged-in-window', ['T'], [[[A, 'T:value'], RD('T:value', Vt(1, 2)), RD('T:value', Vt(1, 5))]], [[['T', 'value', Vt(1, 1)]]],
         omit={'value': 3}),
     scn('read-two-conns-same-par', ['T'], [[[A, 'T:_a'], RD('T:_a', Vt(5, 3))], [[A, None], RD('T:_a', Vt(6, 4)), I]], [[['T', 'a', Vt(1, 1)]]]),
+    # ---- requests refused as malformed (data where none is allowed, no specifier): nothing may change, nothing ends
+    scn('malformed-requests', ['T'], [[[A, 'T'], ['bad', 'deactivate', 'T', 1], ['bad', 'activate', None, 1], ['bad', 'read', 'T:value', 1],
+                                       ['bad', 'change', None, 5], ['bad', 'activate', 'T:value', 1], [D, 'T']]],
+        [[['T', 'value', Vt(1, 1)], ['T', 'value', Vt(2, 2)]]]),
     scn('read-hidden-module', ['T'], [[[A, None], RD('H:value', Vt(5, 3)), CH('H:_a', Vt(5, 4))]], [[['T', 'value', Vt(1, 1)]]], hidden_mods=['H']),
 ]
 
@@ -894,6 +909,8 @@ def gen_case(rng):
                 if first and ':' in first and first.split(':', 1)[1] in ('value', '_a', '_ab') and rng.random() < 0.6:
                     rq = ['read', first, rq[2]]
                 out.append(rq)
+            elif rng.random() < 0.06:
+                out.append(gen_bad(rng, specs))
             elif r < 0.35:
                 out.append([A, rng.choice(specs + odd)])
             elif r < 0.75:
@@ -985,6 +1002,8 @@ def gen_history(rng):
             r = rng.random()
             if mine and rng.random() < p_rw:
                 out.append(gen_rw(rng, mods, stamps, hot, hidden))
+            elif mine and rng.random() < 0.05:
+                out.append(gen_bad(rng, mine))
             elif r < 0.45 or not mine:
                 mine.append(spec())
                 out.append([A, mine[-1]])
